@@ -316,17 +316,30 @@ pub fn render_integer(
 	caps: bool,
 ) {
 	debug_assert!(iv >= 0.0, "render_integer receives sign using arg");
-	let iv = iv.floor() as i64;
+	let fv = iv.floor();
 	// Digit char indexes in reverse order, i.e
 	// for radix = 16 and n = 12f: [15, 2, 1]
-	let digits = if iv == 0 {
+	let digits = if fv == 0.0 {
 		vec![0u8]
-	} else {
-		let mut v = iv.abs();
+	} else if fv < 9.0e18 {
+		let mut v = fv as i64;
 		let mut nums = Vec::with_capacity(1);
 		while v != 0 {
 			nums.push((v % radix) as u8);
 			v /= radix;
+		}
+		nums
+	} else if radix == 10 {
+		// Does not fit into i64: the decimal expansion of an integral f64 is exact
+		format!("{fv:.0}").bytes().rev().map(|b| b - b'0').collect()
+	} else {
+		// Power of two radix: division and remainder are exact in f64
+		let radix = radix as f64;
+		let mut v = fv;
+		let mut nums = Vec::with_capacity(1);
+		while v != 0.0 {
+			nums.push((v % radix) as u8);
+			v = (v / radix).floor();
 		}
 		nums
 	};
